@@ -76,6 +76,10 @@ def statusViolation (j : Json) : Bool :=
     jstr l "type" ≠ "identityref" && (jarr l "iff").isEmpty && walk 100 (jstr s "name") (stRank (jstr l "st")) (jstr l "type")) ||
   -- a uses of a grouping of its own module: the status the uses has — its own, or the one it inherits from the nearest
   -- node above that states one, however far up — may not be better than the grouping's
+  -- a typedef of a submodule used by a leaf of its module: the same module
+  (mods.any fun s => jstr s "subleaf" ≠ "" && (match (jarr s "subs").head? with
+      | some u => stRank (jstr s "subleafst") < stRank (jstr u "tdst")
+      | none => false)) ||
   (mods.any fun s => (jarr s "gst").any fun e =>
     let eff := if jstr e "u" ≠ "" then stRank (jstr e "u") else stRank (jstr e "o")
     eff < stRank (jstr e "g"))
@@ -109,7 +113,17 @@ def verdict (j : Json) (allTypedefs : Bool) : String :=
   else if fault = "ref-status" && statusViolation j then "err:status"
   else "ok"
 
+/-- what the deviations make of ma's nodes: `deviate add { config false; }` on the container slot — written in a module or
+    in a submodule that its module includes —, `deviate add { default "one"; }` on the leaf target -/
+def devLine (j : Json) : String :=
+  let mods := jarr j "mods"
+  let cfgFalse := mods.any fun s => jstr s "deviate" = "add-config" ||
+    ((jarr s "subs").any fun u => jstr u "deviate" = "add-config" && ((jarr s "includes").map strOf).contains (jstr u "name"))
+  let dflt := mods.any fun s => jstr s "deviate" = "add-default"
+  "dev:slot-config=" ++ (if cfgFalse then "false" else "true") ++ (if dflt then " target-default=one" else " target-default-none")
+
 def handle (j : Json) : List (String × Json) :=
-  [("m", "V:" ++ verdict j false ++ "\ndet:stable"), ("s", "V:" ++ verdict j true ++ "\ndet:stable")]
+  let out (v : String) := "V:" ++ v ++ (if v = "ok" then "\n" ++ devLine j else "") ++ "\ndet:stable"
+  [("m", out (verdict j false)), ("s", out (verdict j true))]
 
 end YV.Drv.Md
